@@ -18,6 +18,21 @@ def run_doc(fmt, seed, feature=None, twin=False, want=("c02", "c03", "c13", "c14
     ob = O.observe(data, kind, None)
     out = {"fmt": fmt, "seed": seed, "feature": feature, "twin": twin, "size": len(data),
            "exc": ob["exc"], "n_results": ob["n_results"], "features": sorted(exp.features)}
+    if fmt == "mbox" and ob["exc"] is None:
+        # a mailbox yields one result per message: the results are the units of the mailbox
+        res = ob["results"]
+        units = [{"number": i + 1, "text": r["full_text"], "heading_path": [], "table_text": ""} for i, r in enumerate(res)]
+        joined = "\n".join(u["text"] for u in units)
+        out.update(cls="EmailContent", n_tokens=len(exp.seq), n_units=len(units), n_tables=0, n_images=0, errors={})
+        if "c02" in want:
+            out["c02"] = E.check_text(exp, joined)
+        if "c03" in want:
+            out["c03"] = E.check_units(exp, units, joined)
+            out["unit_numbers"] = [u["number"] for u in units]
+            for i, r in enumerate(res):      # each message is, in turn, a one-unit document
+                if len(r.get("units", [])) != 1:
+                    out["c03"].append(("unit-count", f"message {i + 1} yields {len(r.get('units', []))} units"))
+        return out
     if ob["exc"] is not None or ob["n_results"] != 1:
         return out
     r = ob["results"][0]
